@@ -95,6 +95,7 @@ class Runner:
         self.timeout = timeout
         self.thorough = thorough
         self.tainted = False
+        self.pending_probe = []
         self.stats = {'ops': {}, 'errors': {}, 'bounds_on_cp': 0, 'bounds_adj_cp': 0, 'bounds': 0,
                       'conflicts': 0, 'text_len': {}, 'timeouts': 0}
         signal.signal(signal.SIGALRM, _alarm)
@@ -191,9 +192,34 @@ class Runner:
             k = outcome[0] if outcome[0] == 'timeout' else type(outcome[1]).__name__
             self.stats['errors'][k] = self.stats['errors'].get(k, 0) + 1
 
+    def run_probes(self):
+        viol = []
+        for r, v in self.pending_probe:
+            try:
+                before = O.Snap(v)
+            except Exception as e:   # noqa
+                viol.append(('C08', 'frame', 'a value sharing structure with a result can no longer be observed: %r' % (e,)))
+                self.tainted = True
+                break
+            try:
+                for k in sorted(r._fmts):
+                    r._fmts[k].add.append(self.mod.AnsiSetting('95'))
+                    r._fmts[k].rem[:] = []
+                changed = not before.same_as(O.Snap(v))
+            except Exception:   # noqa
+                changed = True
+            self.tainted = True      # the probe destroyed the result: the history ends here
+            if changed:
+                viol.append(('C08', 'result_aliased', 'editing the markers of a result changed another value (shared list objects)'))
+                break
+        self.pending_probe = []
+        return viol
+
     def emit(self, op, inp, exp, desc, viol=(), tags=()):
         st = Step(op, inp, exp, desc, tags)
         st.viol = list(viol)
+        if self.pending_probe:
+            st.viol += self.run_probes()
         self.steps.append(st)
         return st
 
@@ -228,9 +254,11 @@ class Runner:
             except Exception as e:   # noqa
                 viol.append(('C08', 'frame', 'a value that was not written now fails: %r' % (e,)))
                 viol.append(('C09', 'self_check', 'a value that was not written now fails: %r' % (e,)))
+                self.tainted = True
                 continue
             if not s.same_as(now):
                 viol.append(('C08', 'frame', 'a value that was not written changed: %r -> %r' % (s.render[0], now.render[0])))
+                self.tainted = True
         return res, viol
 
     @staticmethod
@@ -255,19 +283,8 @@ class Runner:
                     viol.append(('C08', 'result_is_source', 'a non-in-place method returned the receiver/argument itself'))
                     return viol
                 if self._lists(r) & self._lists(v):
-                    before = O.Snap(v)
-                    try:
-                        n = len(r._s)
-                        for k in sorted(r._fmts):
-                            r._fmts[k].add.append(self.mod.AnsiSetting('95'))
-                            r._fmts[k].rem[:] = []
-                        changed = not before.same_as(O.Snap(v))
-                    except Exception:   # noqa
-                        changed = True
-                    if changed:
-                        viol.append(('C08', 'result_aliased', 'editing the markers of a result changed another value (shared list objects)'))
-                        self.tainted = True
-                        return viol
+                    # confirmed at the end of the step (the probe edits the result's markers)
+                    self.pending_probe.append((r, v))
         return viol
 
     def after_error(self, x, snap, outcome):
@@ -289,6 +306,7 @@ class Runner:
             x + 'z'
         except Exception as e:  # noqa
             viol.append(('C09', 'self_check', '%s: %r' % (what, e)))
+            self.tainted = True
             return viol
         n = len(x._s)
         ks = sorted(x._fmts)
@@ -500,24 +518,26 @@ class Runner:
         ids = P.InIds()
         inp = P.line('slice', P.e_astr(x, ids), P.e_optint(a), P.e_optint(b))
         how = rng.choice(['getitem', 'clip', 'getitem'])
+        pre = O.Snap(x, with_render=False)
         out, fv = self.framed([], lambda: self.call(lambda: x[a:b] if how == 'getitem' else x.clip(a, b)))
         self.count('slice', out)
         viol = self.c09(out, 'slice', repr((a, b))) + fv
         if out[0] == 'ok':
             y = out[1]
-            viol += self.oracle_slice(x, y, a, b)
+            viol += self.oracle_slice(pre, y, a, b)
             viol += self.health(y, 'slice')
             if rng.random() < 0.5:
                 self.add_live(y)
         self.emit('slice', inp, self.outcome_line(out, P.ok_astr), '%s[%r:%r] of %r' % (how, a, b, x._s), viol)
 
-    def oracle_slice(self, x, y, a, b):
+    def oracle_slice(self, pre, y, a, b):
+        """pre: snapshot of the source taken before the slice"""
         viol = []
-        if y._s != x._s[a:b]:
-            return [('C04', 'getitem_text', '%r vs %r' % (y._s, x._s[a:b]))]
-        n = len(x._s)
+        if y._s != pre.text[a:b]:
+            return [('C04', 'getitem_text', '%r vs %r' % (y._s, pre.text[a:b]))]
+        n = len(pre.text)
         st = O.norm_idx(n, a, 0)
-        ax, ay = O.acts(x), O.acts(y)
+        ax, ay = pre.acts, O.acts(y)
         for k in range(len(y._s)):
             if not O.same_prec(ay[k], ax[st + k]):
                 viol.append(('C04', 'getitem_settings', 'k=%d %r vs %r' % (k, O.texts(ay[k]), O.texts(ax[st + k]))))
@@ -534,6 +554,7 @@ class Runner:
         i = rng.choice([0, -1, n - 1, -n, n, -n - 1, rng.randint(-n - 1, n + 1)])
         ids = P.InIds()
         inp = P.line('index', P.e_astr(x, ids), P.e_int(i))
+        pre = O.Snap(x, with_render=False)
         out, fv = self.framed([], lambda: self.call(lambda: x[i]))
         self.count('index', out)
         viol = self.c09(out, 'index', repr(i), allowed=(IndexError,)) + fv
@@ -546,19 +567,20 @@ class Runner:
             w = x[j:j + 1]
             if y._s != w._s or [O.texts(q) for q in O.acts(y)] != [O.texts(q) for q in O.acts(w)]:
                 viol.append(('C04', 'getitem_int', 'i=%d: %r %r vs slice %r' % (i, y._s, y.settings_at(0), w.settings_at(0))))
-            viol += self.oracle_slice(x, y, j, j + 1)
+            viol += self.oracle_slice(pre, y, j, j + 1)
         self.emit('index', inp, self.outcome_line(out, P.ok_astr), '[%d] of %r' % (i, x._s), viol)
 
     def op_iter(self):
         x = self.pick()
         ids = P.InIds()
         inp = P.line('iter', P.e_astr(x, ids))
+        pre = O.Snap(x, with_render=False)
         out, fv = self.framed([], lambda: self.call(lambda: list(x)))
         self.count('iter', out)
         viol = self.c09(out, 'iter', '') + fv
         if out[0] == 'ok':
             ys = out[1]
-            if len(ys) != len(x._s) or any(y._s != x._s[i] or O.texts(O.acts(y)[0]) != O.texts(O.acts(x)[i]) for i, y in enumerate(ys)):
+            if len(ys) != len(pre.text) or any(y._s != pre.text[i] or O.texts(O.acts(y)[0]) != O.texts(pre.acts[i]) for i, y in enumerate(ys)):
                 viol.append(('C04', 'iter_eq', ''))
         self.emit('iter', inp, self.outcome_line(out, P.ok_astrs), 'iter %r' % x._s, viol)
 
@@ -1390,7 +1412,18 @@ class Runner:
             if self.tainted:
                 break
             nm = self.rng.choices(names, ws)[0]
-            getattr(self, 'op_' + nm)()
+            try:
+                getattr(self, 'op_' + nm)()
+            except Timeout:
+                raise
+            except Exception as e:   # noqa
+                # the harness itself failed while observing a value: a live value is broken
+                # (it fails the library's self-check or cannot be rendered) — that is a C09 violation
+                import traceback
+                tb = traceback.format_exc().strip().split('\n')
+                self.emit('noop', None, None, 'observation of a live value failed during op %s' % nm,
+                          [('C09', 'self_check', 'a reachable value can no longer be observed: %r | %s' % (e, ' / '.join(tb[-4:])[:400]))])
+                self.tainted = True
             for v in self.live:
                 self.stats['text_len'][len(v._s)] = self.stats['text_len'].get(len(v._s), 0) + 1
         for k, st in enumerate(self.steps[start:]):
